@@ -107,4 +107,4 @@ def main():
 
 
 if __name__ == '__main__':
-    sys.exit(common.run_main(main))
+    sys.exit(common.run_main(main, second_pass=False))      # every run is a fresh CLI process already
